@@ -4,6 +4,7 @@ import (
 	"bytes"
 	"fmt"
 	"math/big"
+	"sync"
 	"testing"
 	"time"
 
@@ -644,21 +645,23 @@ func runForgery(t failer, check string, b Base, ai int, src issuer.Source) {
 		evid.Infra(t, "generator (%s, forgery): %v [%s]", a.name, err, b.key())
 		return
 	}
+	// The forgery first: an acceptance is a violation whatever else happens.
+	ob := runPA(bin)
+	repro := map[string]any{"attack": a.name, "base": b, "forged": bin.repro(), "twin": gin.repro()}
+	if ob.Accepted {
+		evid.Fail(t, check, repro, "PassiveAuth accepts forgery %q (labelled invalid) [%s]", a.name, b.key())
+		return
+	}
+	// The valid twin must pass, otherwise the rejection above means nothing
+	// (infrastructure problem or a C09 matter, never a C01 violation).
 	og := runPA(gin)
 	if !og.Accepted {
-		// the valid twin must pass, otherwise the forgery's rejection means nothing
-		evid.Infra(t, "valid twin of %s rejected (parse %q, err %q, panic %q) [%s]", a.name, og.ParseErr, og.Err, og.Panic, b.key())
+		twinRejected(fmt.Sprintf("valid twin of %s rejected (parse %q, err %q, panic %q) [%s]", a.name, og.ParseErr, og.Err, og.Panic, b.key()))
 		return
 	}
 	evid.Case("forgery:"+a.name, true, a.name+"|"+b.key(), nil)
 	evid.Count("scheme:"+b.DSSig.Scheme+"-"+b.DSSig.Hash, 1)
 	evid.Count("ds-key:"+keyClass(b.DSKey), 1)
-	ob := runPA(bin)
-	repro := map[string]any{"attack": a.name, "base": b, "forged": bin.repro(), "twin": gin.repro()}
-	if ob.Accepted {
-		evid.Fail(t, check, repro, "PassiveAuth accepts forgery %q (labelled invalid; its valid twin is accepted too) [%s]", a.name, b.key())
-		return
-	}
 	if ob.Panic != "" {
 		evid.Count("forgery-panic", 1)
 	}
@@ -678,6 +681,24 @@ func runForgery(t failer, check string, b Base, ai int, src issuer.Source) {
 				evid.Fail(t, check, repro, "SignedData.Verify accepts the forged CardSecurity of %q [%s]", a.name, b.key())
 			}
 		}
+	}
+}
+
+var (
+	twinMu    sync.Mutex
+	twinNotes int
+)
+
+// twinRejected records (without stopping the run) that a valid twin was
+// refused: the run becomes inconclusive unless a real violation is found.
+func twinRejected(msg string) {
+	twinMu.Lock()
+	twinNotes++
+	n := twinNotes
+	twinMu.Unlock()
+	evid.Count("forgery-twin-rejected", 1)
+	if n <= 3 {
+		evid.InfraNote("%s", msg)
 	}
 }
 
@@ -896,20 +917,21 @@ func runMLForgery(t failer, check string, b Base, ai int, src issuer.Source) {
 		evid.Infra(t, "generator (%s): %v [%s]", a.name, err, b.key())
 		return
 	}
-	got, err := createPool(gml, groot)
-	if err != nil {
-		evid.Infra(t, "valid twin of %s rejected: %v [%s]", a.name, err, b.key())
+	repro := map[string]any{"attack": a.name, "base": b, "ml": fmt.Sprintf("%x", bml), "root": fmt.Sprintf("%x", broot), "twin_ml": fmt.Sprintf("%x", gml), "twin_root": fmt.Sprintf("%x", groot)}
+	if _, err := createPool(bml, broot); err == nil {
+		evid.Fail(t, check, repro, "CreateCertPoolFromSignedData accepts forgery %q [%s]", a.name, b.key())
 		return
 	}
-	repro := map[string]any{"attack": a.name, "base": b, "ml": fmt.Sprintf("%x", bml), "root": fmt.Sprintf("%x", broot), "twin_ml": fmt.Sprintf("%x", gml), "twin_root": fmt.Sprintf("%x", groot)}
+	got, err := createPool(gml, groot)
+	if err != nil {
+		twinRejected(fmt.Sprintf("valid twin of %s rejected: %v [%s]", a.name, err, b.key()))
+		return
+	}
 	if !sameSet(got, listed) {
 		evid.Fail(t, check, repro, "CreateCertPoolFromSignedData returns other certificates than the signed list (twin of %s) [%s]", a.name, b.key())
 		return
 	}
 	evid.Case("forgery:"+a.name, true, a.name+"|"+b.key(), nil)
-	if _, err := createPool(bml, broot); err == nil {
-		evid.Fail(t, check, repro, "CreateCertPoolFromSignedData accepts forgery %q [%s]", a.name, b.key())
-	}
 }
 
 // TestMasterListForgeries (quick 240, thorough 6 000).
